@@ -95,7 +95,7 @@ func (s *sched) spawn(fn func(), state int) *thr {
 	t := &thr{id: len(s.thr), wake: make(chan struct{}), state: state, fn: fn}
 	s.thr = append(s.thr, t)
 	go func() {
-		<-t.wake
+		wakeRecv(t.wake)
 		if s.killed {
 			return
 		}
@@ -128,7 +128,7 @@ func (s *sched) abortToMain() {
 	}
 	m.state = stReady
 	s.cur = m
-	m.wake <- struct{}{}
+	wakeSend(m.wake)
 }
 
 func (s *sched) enabled(includeTimers bool) []*thr {
@@ -186,13 +186,13 @@ func (s *sched) start(t *thr) {
 		t.state = stReady
 	}
 	s.cur = t
-	t.wake <- struct{}{}
+	wakeSend(t.wake)
 }
 
 func (s *sched) switchTo(next *thr) {
 	cur := s.cur
 	s.start(next)
-	<-cur.wake
+	wakeRecv(cur.wake)
 	if s.killed {
 		select {} // the run is over; park for good
 	}
@@ -225,7 +225,7 @@ func (s *sched) block() {
 			panic(schedAbort{})
 		}
 		s.abortToMain()
-		<-s.cur.wake
+		wakeRecv(s.cur.wake)
 		select {}
 	}
 	s.switchTo(next)
@@ -455,6 +455,22 @@ func watchdog() time.Duration {
 		return time.Duration(v) * time.Second
 	}
 	return 20 * time.Second
+}
+
+// Baton hand-over between the twin scheduler's goroutines. Under the Go race detector the hand-over must
+// not count as synchronisation (it would order every access of one thread before every later access of the
+// next and hide all races): the detector's handling of synchronisation events is switched off around it.
+// Real lock operations of the code under test, go statements and timers keep their happens-before edges.
+func wakeSend(c chan struct{}) {
+	raceDisable()
+	c <- struct{}{}
+	raceEnable()
+}
+
+func wakeRecv(c chan struct{}) {
+	raceDisable()
+	<-c
+	raceEnable()
 }
 
 var wg sync.WaitGroup
